@@ -118,7 +118,7 @@ var dims = []dim{
 	{"StderrRegex", []string{"none", "match", "no-match", "invalid"}},
 }
 
-// baseline choice per dimension (quick tier varies at most 3 dimensions away from it). StderrMatch's
+// baseline choice per dimension (quick tier varies at most 4 dimensions away from it). StderrMatch's
 // baseline is "equal" so that the baseline plan passes for functions that write to stderr too.
 var baseline = []int{0, 0, 0, 0, 0, 0, 0, 1, 0}
 
@@ -394,7 +394,7 @@ func enumeratePlans(maxDev int, fn func(ch []int) bool) {
 
 func run(c *vlib.Ctx) {
 	setup(c)
-	maxDev := 3
+	maxDev := 4
 	if !c.Quick() {
 		maxDev = -1
 	}
@@ -437,7 +437,7 @@ func replay(c *vlib.Ctx, w string) {
 func init() {
 	vlib.Register(&vlib.Check{
 		ID: "C31", Engine: "E2",
-		Rule: "functions = {stdout: empty(str), a\\n(str), [\"a\",\"b\"](json), {\"k\":1}(json), 7(json)} x {stderr: empty, e\\n} x {exit 0,1,3} (30, each a one-command function with exactly that behaviour); plans = product of StdoutMatch {none,equal,different} x StdoutRegex {none,match,no-match,invalid} x StdoutType {none,right,wrong} x StdoutIsArray x StdoutIsMap x StdoutGreaterThan {none,length-1,length+1} x ExitNum {actual,other} x StderrMatch {none,equal,different} x StderrRegex {none,match,no-match,invalid}, combinations that do not exist for a function (equality with an empty stream, lengths of non-collections) dropped; thorough = the full product, quick = every plan differing from the all-pass baseline in at most 3 dimensions. Per case the plan is registered with `test unit function NAME <json>` (unit-test registry emptied first), then lang.GlobalUnitTests.Run (boolean) and `test run NAME` (exit number) are observed with test enabled and auto-report off; oracle: passed <=> every assertion present in the plan holds on the known outputs (the oracle evaluates the plan JSON itself). Non-trivial = plans with at least two assertions besides the exit number (their conjunction decides the verdict)",
+		Rule:   "functions = {stdout: empty(str), a\\n(str), [\"a\",\"b\"](json), {\"k\":1}(json), 7(json)} x {stderr: empty, e\\n} x {exit 0,1,3} (30, each a one-command function with exactly that behaviour); plans = product of StdoutMatch {none,equal,different} x StdoutRegex {none,match,no-match,invalid} x StdoutType {none,right,wrong} x StdoutIsArray x StdoutIsMap x StdoutGreaterThan {none,length-1,length+1} x ExitNum {actual,other} x StderrMatch {none,equal,different} x StderrRegex {none,match,no-match,invalid}, combinations that do not exist for a function (equality with an empty stream, lengths of non-collections) dropped; thorough = the full product, quick = every plan differing from the all-pass baseline in at most 4 dimensions. Per case the plan is registered with `test unit function NAME <json>` (unit-test registry emptied first), then lang.GlobalUnitTests.Run (boolean) and `test run NAME` (exit number) are observed with test enabled and auto-report off; oracle: passed <=> every assertion present in the plan holds on the known outputs (the oracle evaluates the plan JSON itself). Non-trivial = plans with at least two assertions besides the exit number (their conjunction decides the verdict)",
 		Run:    run,
 		Replay: replay,
 		Assumptions: []string{
